@@ -2,7 +2,8 @@
 C05 — incremental input: split invariance of the streaming decompressor. Property theorems only.
 
 The user of `Decompressor` interleaves `write` (whole bytes), draining the iterator, and
-`free_compressed_memory` in any way (`Step`, `runSched`). For every lookup `L` with `Op.LazyOf L`,
+`free_compressed_memory` in any way (`Step`, `runSched`). For every lookup `L` with `Op.WeakLazyOf L`
+(no monotonicity of the lookup in the available data is assumed),
 every `gb`, data type, well-formed file and batch limit `≥ 1`:
 
 * `split_invariance`: whatever the cuts of the file into written pieces (inside the magic header,
@@ -25,7 +26,7 @@ variable {gb : Nat → Nat} {d : DType} {f : AFile}
 
 /-- C05: split invariance. `fuel` (the bound on the iterator calls of one drain) only has to
 exceed `itemBound f` = numbers + chunks + 2. -/
-theorem split_invariance (L : Matcher) (hL : LazyOf L) (h : f.WF gb d) (limit : Nat) (hlim : 1 ≤ limit)
+theorem split_invariance (L : Matcher) (hL : WeakLazyOf L) (h : f.WF gb d) (limit : Nat) (hlim : 1 ≤ limit)
     (fuel : Nat) (hfuel : itemBound f < fuel) (sched : List Step) (hwb : wholeBytes sched)
     (hw : written sched = encodeFile gb d f)
     (hfd : ∃ pre post, sched = pre ++ .drain :: post ∧ written post = []) :
@@ -41,6 +42,15 @@ theorem split_invariance (L : Matcher) (hL : LazyOf L) (h : f.WF gb d) (limit : 
   refine ⟨items, σ', by simpa using hr, ?_, hi.1, by simpa using hi.2⟩
   rw [expectedItems_eq, ← hc]
   simp [remItems]
+
+/-- `split_invariance` for the stronger hypothesis `LazyOf` -/
+theorem split_invariance_of_lazyOf (L : Matcher) (hL : LazyOf L) (h : f.WF gb d) (limit : Nat)
+    (hlim : 1 ≤ limit) (fuel : Nat) (hfuel : itemBound f < fuel) (sched : List Step)
+    (hwb : wholeBytes sched) (hw : written sched = encodeFile gb d f)
+    (hfd : ∃ pre post, sched = pre ++ .drain :: post ∧ written post = []) :
+    ∃ items σ', runSched L gb d limit fuel sched St.init [] = (items, none, σ') ∧
+      canon items = canon (expectedItems d f limit) ∧ σ'.terminated = true ∧ σ'.rest = [] :=
+  split_invariance L hL.weak h limit hlim fuel hfuel sched hwb hw hfd
 
 theorem itemNums_canon (l : List Item) : itemNums (canon l) = itemNums l := by
   induction l with
@@ -59,7 +69,7 @@ theorem itemNums_canon (l : List Item) : itemNums (canon l) = itemNums l := by
 
 /-- C05, the numbers: whatever the schedule, the numbers yielded, concatenated, are the numbers of
 the file -/
-theorem split_invariance_nums (L : Matcher) (hL : LazyOf L) (h : f.WF gb d) (limit : Nat)
+theorem split_invariance_nums (L : Matcher) (hL : WeakLazyOf L) (h : f.WF gb d) (limit : Nat)
     (hlim : 1 ≤ limit) (fuel : Nat) (hfuel : itemBound f < fuel) (sched : List Step)
     (hwb : wholeBytes sched) (hw : written sched = encodeFile gb d f)
     (hfd : ∃ pre post, sched = pre ++ .drain :: post ∧ written post = []) :
